@@ -5,7 +5,8 @@
   What is carried by theorems here (function level, unbounded):
     * T1  `roundtrip_tree`, `encode_total_iff`  — `decode_from_dict ∘ json ∘ encode_to_dict` is the
           identity on every sharing-free `Encodable` value and the encoder succeeds exactly on `EncShape`;
-    * T2  `roundtrip_dag_refs_scoped` (key lemma of the sharing case, see Lemmas) — stated below;
+    * T2  `roundtrip_dag` — the `refs` discipline over an abstract identity-labelled universe (post-order
+          registration, lists transparent): decode ∘ encode rebuilds every shared graph;
     * `cleanup_*` — frame facts of `_clean_up_state`.
   What rests on correspondence/oracle only (harness/props/C11.py, every run):
     * T3  behaviour_preserved / cleanup_bisim: "the restored / aged state reacts to every later event
@@ -14,6 +15,7 @@
 -/
 import NemoVerif.Lemmas.Serialize
 import NemoVerif.Lemmas.CleanUp
+import NemoVerif.Lemmas.SerializeRefs
 namespace NemoVerif.C11
 open NemoVerif NemoVerif.Serialize NemoVerif.CleanUp
 
@@ -67,6 +69,32 @@ theorem action_tuple_as_is_counterexample :
       = .ok (.action "u" "A" none "STARTED" (.dict []) (.dict [(.str "x", .list [.int 1])]) 0) := by
   simp [encode, rawDump, rawDumpKvs, rawDumpList, keyStr, wrap, decode, typeTag, decodeAtValue, decodePlain, decodeList,
     optStrJ, lookup_action, enumOk, NemoVerif.Generated.C11.enums, bind, Except.bind, pure, Except.pure]
+
+/-! ## Sharing (T2): the `refs` discipline -/
+
+/-- T2. For every object graph with sharing (any unfolding `t` whose equal ids carry equal objects,
+    `Consistent H t`), decoding the encoder's output rebuilds `t` and every reference resolves to the
+    object registered under its id: a reference always follows its definition in traversal order.
+    Stated over the abstract labelled universe `Refs.Lab` (value kinds abstracted to tags); the tie of
+    `encodeS` to the concrete encoder is the `C11.refs` correspondence on generated shared graphs. -/
+theorem roundtrip_dag (H : Nat → Refs.Lab) (t : Refs.Lab) (hc : Refs.Consistent H t) :
+    ∃ tbl, Refs.decodeS [] (Refs.encodeS [] t).1 = some (t, tbl) ∧ Refs.Agree H (Refs.encodeS [] t).2 tbl := by
+  refine Refs.roundtrip H t [] [] hc ?_
+  intro i; simp [Refs.lookup]
+
+/-- the same from any intermediate point of the traversal (the invariant the induction carries) -/
+theorem roundtrip_dag_from (H : Nat → Refs.Lab) (t : Refs.Lab) (refs : List Nat) (tbl : List (Nat × Refs.Lab))
+    (hc : Refs.Consistent H t) (ha : Refs.Agree H refs tbl) :
+    ∃ tbl', Refs.decodeS tbl (Refs.encodeS refs t).1 = some (t, tbl') ∧ Refs.Agree H (Refs.encodeS refs t).2 tbl' :=
+  Refs.roundtrip H t refs tbl hc ha
+
+example : Refs.Consistent (fun i => if i = 1 then .node 1 7 [.leaf 0] else .leaf 0)
+    (.seq [.node 1 7 [.leaf 0], .node 1 7 [.leaf 0]]) := by
+  simp [Refs.Consistent, Refs.ConsistentList]
+
+/- Cyclic graphs: a `Lab` is a finite unfolding, so a cycle has no `Lab`; on the implementation a cyclic
+   state makes `encode_to_dict` recurse until RecursionError (an object is registered only after its
+   children, so it can never be referenced from inside itself) — open finding "cyclic-state-reference". -/
 
 /-! ## Clean-up (`_clean_up_state`) -/
 
